@@ -21,6 +21,11 @@ DIAGNOSTICS = (parse.ParsingException, rule_translate.RuleCompileException,
                functors.FunctorError, infer.TypeErrorCaughtException)
 
 SQLITE_OP_BUDGET = int(os.environ.get('VERIF_SQLITE_OPS', '12000000'))
+# Count-based memory guard: SQLite's hard heap limit (process-wide).  Preparing a
+# statement in which WITH tables are referenced several times per level (vertically
+# unfolded non-linear recursion) can need tens of GB before the first VDBE step, where
+# the progress handler cannot help.  Exceeding the limit => Interrupted (inconclusive).
+SQLITE_HEAP_LIMIT = int(os.environ.get('VERIF_SQLITE_HEAP', str(192 << 20)))
 
 
 class Interrupted(Exception):
@@ -114,6 +119,7 @@ def connect(database=':memory:'):
         state[0] += 1
         return 1 if state[0] * 10000 > SQLITE_OP_BUDGET else 0
     con.set_progress_handler(handler, 10000)
+    con.execute('PRAGMA hard_heap_limit=%d' % SQLITE_HEAP_LIMIT)
     return con
 
 
@@ -132,9 +138,11 @@ def execute(prog, con=None):
         hdr = [d[0] for d in cur.description]
         return hdr, rows
     except sqlite3.OperationalError as e:
-        if 'interrupted' in str(e):
+        if 'interrupted' in str(e) or 'out of memory' in str(e):
             raise Interrupted()
         raise
+    except MemoryError:
+        raise Interrupted()
     finally:
         if own:
             con.close()
@@ -176,9 +184,11 @@ def run_concertina(text, preds, flags=None, con=None, import_root=None, log=None
                 return [d[0] for d in c.description], c.fetchall()
             con.executescript(sql)
         except sqlite3.OperationalError as e:
-            if 'interrupted' in str(e):
+            if 'interrupted' in str(e) or 'out of memory' in str(e):
                 raise Interrupted()
             raise
+        except MemoryError:
+            raise Interrupted()
     try:
         with quiet():
             res = concertina_lib.ExecuteLogicaProgram(
